@@ -216,3 +216,67 @@ for _n, _d in (('mpf_ceil', '1'), ('mpf_floor', '-1')):
     _v = dict(_cf); _v['name'] = _n; _v['harness'] = _cf['harness'].replace('DIRSEL', _d).replace('h_mpf_ceilfloor (void)', 'h_%s (void)' % _n)
     if _n == 'mpf_floor': _v['selftest'] = []
     UNITS.append(_v)
+
+# ------------------------------------------------------------------ mpf_mul_2exp / mpf_div_2exp: exact scaling - the top min(un, prec) limbs shifted left by L bits
+# into n+1 limbs (or a plain top-limb copy when the bit count is a multiple of 64), exponent adjusted
+def _f2exp(op):
+    f = '__gmpf_%s_2exp' % op
+    contract = '''void %s (mpf_ptr r, mpf_srcptr u, mp_bitcnt_t exp)
+__CPROVER_requires (V_WFF (r) && V_WFF (u) && -(1L << 62) < V_EXP (u) && V_EXP (u) < (1L << 62) && V_GHOSTS_OK && gk < V_ZMAX)
+__CPROVER_assigns (r->_mp_size, r->_mp_exp, __CPROVER_object_whole (V_PTR (r)), gk)
+__CPROVER_ensures (gk == __CPROVER_old (gk) && V_WFF_AT (r, gk) && V_PTR (r) == __CPROVER_old (V_PTR (r)) && V_PREC (r) == __CPROVER_old (V_PREC (r)));
+''' % f
+    h = '''void h_mpf_%(op)s_2exp (void) {
+%(R)s%(U)s%(alias)s  mp_bitcnt_t e = nondet_ulong ();
+  gk = nondet_long (); gj = nondet_long (); gh = nondet_long ();
+  __CPROVER_assume (V_GHOSTS_OK && gk < V_ZMAX && V_WFF (r) && V_WFF (u) && -(1L << 62) < V_EXP (u) && V_EXP (u) < (1L << 62));
+  long su = V_SIZ (u), un = V_ABS (su), pr = V_PREC (r), eu = V_EXP (u), q = (long) (e / 64); unsigned s = e %% 64;
+  __CPROVER_assume (BRANCHSEL);
+  if (s == 0)
+    {
+      long rn = un < pr + 1 ? un : pr + 1; mp_limb_t Uk = gk < rn ? V_PTR (u)[gk + (un - rn)] : 0;
+      %(f)s (r, u, e);
+      __CPROVER_assert ((long) V_SIZ (r) == (su >= 0 ? rn : -rn) && V_EXP (r) == (su == 0 ? 0 : eu %(sgn)s q), "[C13] whole-limb scaling: top min(un, prec+1) limbs kept, exponent %(sgn)s e/64");
+      __CPROVER_assert (gk < rn ==> V_PTR (r)[gk] == Uk, "[C13][C05] limb gk of r is limb gk of the TOP rn limbs of u");
+    }
+  else
+    {
+      unsigned L = %(L)s;                                                  /* left shift applied to the limb data */
+      long n = un < pr ? un : pr;                                          /* limbs taken from the top of u */
+      /* X = top n limbs of u; r[j] = (X[j] << L) | (X[j-1] >> (64-L)) for 0 <= j <= n with X[-1] = X[n] = 0: checked at j = gk and j = gk + 1 */
+      mp_limb_t Xk = gk < n ? V_PTR (u)[gk + (un - n)] : 0, Xk1 = (gk >= 1 && gk - 1 < n) ? V_PTR (u)[gk - 1 + (un - n)] : 0;
+      mp_limb_t Xt = n ? V_PTR (u)[un - 1] : 0;
+      %(f)s (r, u, e);
+      if (su == 0) __CPROVER_assert (V_SIZ (r) == 0 && V_EXP (r) == 0, "[C13] 0 scaled is 0");
+      else
+        {
+          long adj = (Xt >> (64 - L)) != 0;
+          __CPROVER_assert ((long) V_SIZ (r) == (su >= 0 ? n + adj : -(n + adj)), "[C13] min(un, prec) limbs shifted, one more when bits leave the top limb; sign kept");
+          __CPROVER_assert (V_EXP (r) == %(E)s, "[C13] exponent: %(Edoc)s");
+          __CPROVER_assert (gk <= n ==> V_PTR (r)[gk] == ((Xk << L) | (Xk1 >> (64 - L))), "[C13][C05] limb gk of r = the top limbs of u shifted left by L bits (exact, nothing but dropped low limbs is lost)");
+        }
+    }
+  if (u != r) __CPROVER_assert ((long) V_SIZ (u) == su && V_EXP (u) == eu, "[C05] source unchanged");
+}'''
+    d = dict(op=op, f=f, R=mpf_obj('R'), U=mpf_obj('U'), alias='ALIASBLOCK',
+             sgn='+' if op == 'mul' else '-', L='s' if op == 'mul' else '64 - s',
+             E='eu + q + adj' if op == 'mul' else 'eu - q - 1 + adj', Edoc='+ e/64 + carry limb' if op == 'mul' else '- e/64 - 1 + carry limb')
+    muts = ([(r'adj = cy_limb != 0;', 'adj = 0;'), (r'if \(abs_usize > prec\)\s*\{\s*up \+= abs_usize - prec;\s*abs_usize = prec;\s*cy_limb', 'if (abs_usize > prec + 1) { up += abs_usize - prec; abs_usize = prec; cy_limb')] if op == 'mul'
+            else [(r'uexp - exp / \(64 - 0\) - 1 \+ adj', 'uexp - exp / (64 - 0) + adj'), (r'rp\[0\] = cy_limb;', 'rp[0] = 0;')])
+    base = dict(name='mpf_%s_2exp' % op, props=['C13', 'C04', 'C05', 'C15'], source='mpf/%s_2exp.c' % op, contracts=CT, contract_text=contract,
+                enforce=[f], replace=['__gmpn_lshift', '__gmpn_rshift'],
+                functions={f: dict(loops={0: copy_loop('gk', 'incr')},
+                                   inserts=[(r'cy_limb = __gmpn_lshift \(rp, up, abs_usize,[^;]*\);', r'{ long V_sv = gk; gk = gk < abs_usize ? gk : 0; \g<0> gk = V_sv; }'),
+                                            (r'cy_limb = __gmpn_rshift \(rp \+ 1, up, abs_usize,[^;]*\);', r'{ long V_sv = gk; gk = (gk >= 1 && gk - 1 < abs_usize) ? gk - 1 : 0; \g<0> gk = V_sv; }')])},
+                harness=h % d, timeout=1200, selftest=[(f,) + m for m in muts])
+    out = []
+    for v in split_alias(base, 'ALIASBLOCK', [('', '  mpf_ptr r = &R; mpf_srcptr u = &U;\n'), ('ru', '  mpf_ptr r = &R; mpf_srcptr u = r;\n')]):
+        for tag, cond in (('p1', 's == 0'), ('p2', 's != 0 && un <= pr'), ('p3', 's != 0 && un > pr')):
+            w = dict(v); w['name'] = v['name'] + '_' + tag
+            w['harness'] = v['harness'].replace('BRANCHSEL', cond).replace('h_' + v['name'] + ' (void)', 'h_' + w['name'] + ' (void)')
+            w['replace'] = {'p1': [], 'p2': ['__gmpn_lshift'], 'p3': ['__gmpn_rshift']}[tag]      # the other shift is unreachable in this partition (body-less: CBMC asserts it is never called)
+            w['selftest'] = [m for m in v.get('selftest', []) if (tag == 'p2' and 'adj = cy_limb' in m[1]) or (tag == 'p3' and 'adj = cy_limb' not in m[1] and 'uexp - exp' not in m[1]) or (tag == 'p2' and 'uexp - exp' in m[1])]
+            out.append(w)
+    return out
+UNITS.extend(_f2exp('mul'))
+UNITS.extend(_f2exp('div'))
